@@ -30,6 +30,19 @@ Theorem C13_window_after_hash_write_refuted :
   files w 1 = Some (0, [mkA (Some 10) 1 0; note_new 5]) /\ db w 1 = Some (0, [(10, 1, 0); (1011, 5, 0)]).
 Proof. exact crash_after_hash_write. Qed.
 
+(* REFUTED (known finding): a kill inside remove_file_by_name after one of its own commits - the first note of the
+   page durably removed, nothing of the new state committed. An uninterrupted reindex stamps the note edited on a
+   later day (modify day 1); the re-run after the kill finds no previous state for it and leaves it unstamped (modify
+   day 0): index and file agree with each other but not with the uninterrupted run. *)
+Theorem C13_partial_removal_refuted :
+  let w0 := run alloc0 (w_init [(1, (0, [mkA (Some 10) 0 0; mkA (Some 11) 0 0]))])
+                [Create; NextDay; Edit 1 (0, [mkA (Some 10) 1 0; mkA (Some 11) 0 0])] in
+  files (reindex alloc0 None w0) 1 = Some (0, [mkA (Some 10) 1 1; mkA (Some 11) 0 0]) /\
+  files (reindex alloc0 None (partial_removal 1 1 w0)) 1 = Some (0, [mkA (Some 10) 1 0; mkA (Some 11) 0 0]) /\
+  db (reindex alloc0 None (partial_removal 1 1 w0)) 1 = Some (0, [(10, 1, 0); (11, 0, 0)]).
+Proof. exact partial_removal_not_stamped. Qed.
+
+Print Assumptions C13_partial_removal_refuted.
 Print Assumptions C13_create_converges.
 Print Assumptions C13_reindex_converges_before_hash_write.
 Print Assumptions C13_files_carry_zids.
